@@ -12,7 +12,7 @@ ID = "C14"
 LEVEL = "exploration"
 RULE = ("union of C13 trees and C15 pattern sets: directory trees x recursive on/off x auto-exclusion on/off x prefix x 0..4 "
         "exclude patterns (so that subdirectories are pattern-excluded, auto-excluded, empty after exclusion, or nested below "
-        "directories without CMake files) x directory-listing permutations, default separator; oracle = closure invariant "
+        "directories without CMake files) x directory-listing permutations x output location (absolute, relative, nested below the input root), default separator; oracle = closure invariant "
         "computed from the output tree alone: every index.rst has one toctree with pairwise distinct entries; its file "
         "entries equal the stems of the pages present in that output directory; in recursive mode its '<sub>/index.rst' "
         "entries equal the subdirectories holding an index.rst (none in non-recursive mode); every target exists; every "
@@ -27,9 +27,11 @@ BUDGET = {"quick": {"shards": 8, "examples": 200}, "thorough": {"shards": 16, "e
 
 def strategy(tier):
     depth = 3 if tier == "quick" else 4
-    pat = st.tuples(st.sampled_from([k for k in C15.PATTERN_KINDS if k != "input"]), st.integers(0, 30), st.sampled_from(["e", "s"]))
+    first = ["dir/", "dir", "absdir", "**/dir/", "allcmake", "absdir/"]          # kinds that remove whole subdirectories come first
+    kinds = first + [k for k in C15.PATTERN_KINDS if k != "input" and k not in first]
+    pat = st.tuples(st.sampled_from(kinds), st.integers(0, 30), st.sampled_from(["e", "s"]))
     return st.fixed_dictionaries({
-        "tree": T.dir_tree(depth, max_files=4, max_dirs=3, mixed_case=True),
+        "tree": T.dir_tree(depth, max_files=4, max_dirs=3, mixed_case=True, min_dirs=2),
         "patterns": st.lists(pat, min_size=0, max_size=4),
         "recursive": st.sampled_from([True, True, True, False]),
         "auto": st.booleans(),
@@ -38,6 +40,8 @@ def strategy(tier):
         # outside the carve-out (directories whose CMake files all have a non-lower-case extension, auto-exclusion on)
         # only the closure invariant is asserted: it needs no model of which directories are processed
         "carveout": st.sampled_from([True, True, False]),
+        # output locations of C13: absolute, relative to the cwd, nested directly below the input root (not pre-existing)
+        "outloc": st.sampled_from(["abs", "nested", "abs", "rel"]),
     })
 
 
@@ -81,7 +85,13 @@ def evaluate(case):
             if s_pats:
                 f.write("  exclude_filters:\n" + "".join(f"    - {p!r}\n" for p in s_pats))
         out = sb.path("out")
-        argv = [inp, "-o", out, "-s", cfg]
+        out_arg = out
+        if case.get("outloc") == "nested":
+            out = out_arg = os.path.join(inp, "_out")
+        elif case.get("outloc") == "rel":
+            out, out_arg = os.path.join(cwd, "rel/out"), "rel/out"
+        res.labels.append("out:" + (case.get("outloc") or "abs"))
+        argv = [inp, "-o", out_arg, "-s", cfg]
         if case["recursive"]:
             argv.append("-r")
         if case["prefix"] is not None:
